@@ -43,4 +43,19 @@ CLAIMED = {
          "the runs), capacity reported after append is at least the needed one, a caller claiming n bytes wrote n bytes, "
          "readers/writers conform to io.Reader/io.Writer. Prefault and slack bytes beyond len are not modelled."),
    technique="Coq refinement proof (model -> abstract three-FIFO spec, all ops, all int64 arguments, induction over histories); differential correspondence + extracted oracle"),
+ "C20": dict(
+   text=("PARTIAL proof + full correspondence. Coq theorems (4, closed): sequencedSlots.Push/Pop against a finite map "
+         "(sortedness invariant; duplicates and the slot limit rejected without disturbing stored entries; pop removes "
+         "exactly the requested entry), the regenerated OffsetSlot, and the Fenwick tree's unit responses for every size "
+         "<= 24 (kernel-evaluated finite sweep). The end-to-end statement (the slot popped for a number addresses exactly "
+         "the bytes saved under it whatever was discarded before; Bytes()/Size() totals; capacity errors leave state "
+         "intact) is decided on the implementation by the extracted ParkedMap oracle over every interleaving of <= 4 (5 "
+         "thorough) pushes with pops in every order, capacity edges, never-draining sequencers until the offset index "
+         "runs out, duplicates, zero-length packets, random histories, and on the executable model of the whole stack "
+         "(Fenwick + offsetter + container + sequencer + ByteBuffer save area) which is compared with the real code after "
+         "every call; its Coq proof for all histories is not done."),
+   note=("Trusted: Coq kernel, translator (OffsetSlot), extraction, harness. Protocol assumed: push right after Save, Discard "
+         "right after Pop, a failed push is followed by discarding the just-saved slot. sort.Search is modelled as 'first "
+         "index with seq >= x' (its contract on a sorted slice)."),
+   technique="Coq proof of the container/offset components + kernel-evaluated finite sweep; differential correspondence of the full stack + extracted oracle"),
 }
